@@ -918,6 +918,9 @@ json handleInner(Ctx &c, const json &rec) {
             if (r != all[i]["res"].get<std::string>())
                 return json{{"v", "unjudgeable"}, {"what", "prefix step outcome differs"}, {"step", all[i]}, {"observed", r}};
             s.fresh.clear();              // fresh handles are looked up again on demand
+            // the client reads through the handles it kept, after every call (whatever a handle remembers must stay right)
+            if (c.opts.value("touch_retained", false) && s.open)
+                for (long eid : s.retainedOrder) { try { if (s.retained[eid].valid()) (void) viewOf(s.retained[eid]); } catch (...) {} }
         }
         const json &st = all[i];
         std::string what;
